@@ -79,12 +79,13 @@ VARIABLES owners, coord, fault, kind,   \* the scenario
           servers,    \* history: Shards -> nodes whose read contributes
           swallowed,  \* history: <<node, op>> error replies that were taken for success
           mtLost,     \* history: a MapType failure was dropped (the interface has no error)
+          ciStalled,  \* history: a CreateIterator call waited for its whole deadline (stalled owner)
           outcome,    \* "none" | "success" | "error"
           taint       \* deviations taken on this behaviour
 
 scen == <<owners, coord, fault, kind>>
 vars == <<owners, coord, fault, kind, phase, assign, ops, opOn, gst, plan, issued, failed, dirty, rounds,
-          metaCalled, metaOK, reads, servers, swallowed, mtLost, outcome, taint>>
+          metaCalled, metaOK, reads, servers, swallowed, mtLost, ciStalled, outcome, taint>>
 
 -----------------------------------------------------------------------------
 AllFaults == {"up", "dialFail", "errReply", "stall", "cutMid", "cutFrame", "stallMid"}
@@ -148,7 +149,7 @@ Init ==
   /\ dirty = [n \in Nodes |-> {}] /\ rounds = [n \in Nodes |-> 0]
   /\ metaCalled = {} /\ metaOK = {}
   /\ reads = [s \in Shards |-> 0] /\ servers = [s \in Shards |-> {}]
-  /\ swallowed = {} /\ mtLost = FALSE /\ outcome = "none" /\ taint = {}
+  /\ swallowed = {} /\ mtLost = FALSE /\ ciStalled = FALSE /\ outcome = "none" /\ taint = {}
 
 \* ---- select / cost -------------------------------------------------------
 Map ==
@@ -156,7 +157,7 @@ Map ==
   /\ \E a \in [Shards -> Nodes] : ValidAssign(a) /\ assign' = a
   /\ phase' = "op"
   /\ UNCHANGED <<scen, ops, opOn, gst, plan, issued, failed, dirty, rounds, metaCalled, metaOK, reads, servers,
-                 swallowed, mtLost, outcome, taint>>
+                 swallowed, mtLost, ciStalled, outcome, taint>>
 
 OpStart ==
   /\ phase = "op" /\ ~opOn /\ ops # <<>>
@@ -166,7 +167,7 @@ OpStart ==
   /\ plan' = [g \in Nodes |-> IF g \in Groups THEN [n \in Nodes |-> IF n = g THEN GShards(g) ELSE {}] ELSE NoPlan]
   /\ issued' = [n \in Nodes |-> {}] /\ failed' = [n \in Nodes |-> {}]
   /\ rounds' = [n \in Nodes |-> 0]
-  /\ UNCHANGED <<scen, phase, assign, ops, dirty, metaCalled, metaOK, reads, servers, swallowed, mtLost, outcome, taint>>
+  /\ UNCHANGED <<scen, phase, assign, ops, dirty, metaCalled, metaOK, reads, servers, swallowed, mtLost, ciStalled, outcome, taint>>
 
 PlanNodes(g) == {n \in Nodes : plan[g][n] # {}}
 
@@ -177,6 +178,7 @@ Call(g, n) ==
   /\ failed' = IF CallFails(n, Head(ops)) THEN [failed EXCEPT ![g] = @ \cup {n}] ELSE failed
   /\ swallowed' = IF fault[n] = "errReply" /\ Head(ops) = "CI" /\ ~CallFails(n, "CI")
                   THEN swallowed \cup {<<n, "CI">>} ELSE swallowed
+  /\ ciStalled' = (ciStalled \/ (Head(ops) = "CI" /\ fault[n] = "stall"))
   /\ UNCHANGED <<scen, phase, assign, ops, opOn, gst, plan, dirty, rounds, metaCalled, metaOK, reads, servers,
                  mtLost, outcome, taint>>
 
@@ -198,7 +200,7 @@ RoundEnd(g) ==
                   /\ issued' = [issued EXCEPT ![g] = {}]
                   /\ failed' = [failed EXCEPT ![g] = {}]
                   /\ UNCHANGED gst
-  /\ UNCHANGED <<scen, phase, assign, ops, opOn, metaCalled, metaOK, reads, servers, swallowed, mtLost, outcome, taint>>
+  /\ UNCHANGED <<scen, phase, assign, ops, opOn, metaCalled, metaOK, reads, servers, swallowed, mtLost, ciStalled, outcome, taint>>
 
 \* what the final plans of an operation read: the local shards plus every planned remote request
 Contribs == {<<coord, LocalShards>>} \cup {<<n, plan[g][n]>> : g \in Groups, n \in Nodes}
@@ -227,7 +229,7 @@ OpEnd ==
         ELSE \* cost: the sum of the replies is the result
              /\ reads' = CountReads(Contribs) /\ servers' = WhoReads(Contribs)
              /\ outcome' = "success" /\ phase' = "done" /\ UNCHANGED <<ops, taint>>
-  /\ UNCHANGED <<scen, assign, gst, plan, issued, failed, dirty, rounds, metaCalled, metaOK, swallowed>>
+  /\ UNCHANGED <<scen, assign, gst, plan, issued, failed, dirty, rounds, metaCalled, metaOK, swallowed, ciStalled>>
 
 \* Draining the merged iterator.  A stream cut at a frame boundary delivered k < all of its points.
 Drain ==
@@ -236,32 +238,37 @@ Drain ==
          cutF == {c \in C : fault[c[1]] = "cutFrame"}
          errR == {c \in C : fault[c[1]] = "errReply"}      \* only with F6: the reply was taken for an empty stream
          bad == \/ \E c \in C : fault[c[1]] \in {"cutMid", "stallMid"}
-                \/ cutF # {} /\ "F7" \notin Dev IN
+                \/ cutF # {} /\ "F7" \notin Dev
+         \* The read deadline set for the reply header stays on the connection (shard-reader-timeout covers
+         \* the whole stream): while a stalled owner used up its deadline, the deadline of a stream opened
+         \* before may have passed as well - the statement fails with a timeout.
+         late == ciStalled /\ \E c \in C : c[1] # coord IN
      IF bad
      THEN /\ outcome' = "error" /\ UNCHANGED <<reads, servers, taint>>
-     ELSE /\ \E k \in [cutF -> 0..NShards] :
-               /\ \A c \in cutF : k[c] < Cardinality(c[2])
-               /\ LET D == {IF c \in cutF THEN <<c[1], Lower(c[2], k[c])>>
-                            ELSE IF c \in errR THEN <<c[1], {}>> ELSE c : c \in C} IN
-                  /\ reads' = CountReads(D) /\ servers' = WhoReads(D)
-          /\ outcome' = "success"
-          /\ taint' = taint \cup (IF cutF # {} THEN {"F7"} ELSE {}) \cup (IF errR # {} THEN {"F6"} ELSE {})
+     ELSE \/ /\ late /\ outcome' = "error" /\ UNCHANGED <<reads, servers, taint>>
+          \/ /\ \E k \in [cutF -> 0..NShards] :
+                   /\ \A c \in cutF : k[c] < Cardinality(c[2])
+                   /\ LET D == {IF c \in cutF THEN <<c[1], Lower(c[2], k[c])>>
+                                ELSE IF c \in errR THEN <<c[1], {}>> ELSE c : c \in C} IN
+                      /\ reads' = CountReads(D) /\ servers' = WhoReads(D)
+             /\ outcome' = "success"
+             /\ taint' = taint \cup (IF cutF # {} THEN {"F7"} ELSE {}) \cup (IF errR # {} THEN {"F6"} ELSE {})
   /\ phase' = "done"
-  /\ UNCHANGED <<scen, assign, ops, opOn, gst, plan, issued, failed, dirty, rounds, metaCalled, metaOK, swallowed, mtLost>>
+  /\ UNCHANGED <<scen, assign, ops, opOn, gst, plan, issued, failed, dirty, rounds, metaCalled, metaOK, swallowed, mtLost, ciStalled>>
 
 \* ---- all-nodes metadata fan-out -------------------------------------------
 MetaStart ==
   /\ phase = "map" /\ kind = "meta"
   /\ phase' = "meta"
   /\ UNCHANGED <<scen, assign, ops, opOn, gst, plan, issued, failed, dirty, rounds, metaCalled, metaOK, reads, servers,
-                 swallowed, mtLost, outcome, taint>>
+                 swallowed, mtLost, ciStalled, outcome, taint>>
 
 MetaCall(n) ==
   /\ phase = "meta" /\ n \in Nodes \ {coord} /\ n \notin metaCalled
   /\ metaCalled' = metaCalled \cup {n}
   /\ metaOK' = IF CallFails(n, "MQ") THEN metaOK ELSE metaOK \cup {n}
   /\ UNCHANGED <<scen, phase, assign, ops, opOn, gst, plan, issued, failed, dirty, rounds, reads, servers,
-                 swallowed, mtLost, outcome, taint>>
+                 swallowed, mtLost, ciStalled, outcome, taint>>
 
 MetaFinish ==
   /\ phase = "meta" /\ metaCalled = Nodes \ {coord}
@@ -276,7 +283,7 @@ MetaFinish ==
         ELSE /\ outcome' = IF covered = Shards THEN "success" ELSE "error"
              /\ UNCHANGED taint
   /\ phase' = "done"
-  /\ UNCHANGED <<scen, assign, ops, opOn, gst, plan, issued, failed, dirty, rounds, metaCalled, metaOK, swallowed, mtLost>>
+  /\ UNCHANGED <<scen, assign, ops, opOn, gst, plan, issued, failed, dirty, rounds, metaCalled, metaOK, swallowed, mtLost, ciStalled>>
 
 -----------------------------------------------------------------------------
 Next ==
@@ -326,7 +333,7 @@ C05_MapTypeFailureCovered == (Done /\ mtLost /\ taint = {}) => outcome = "error"
 \* per shard the statement succeeds
 RequestTimeOnly == \A n \in Nodes : fault[n] \in {"up", "dialFail", "errReply", "stall"}
 C05_FailoverAtRequestTime ==
-  (Done /\ fault[coord] = "up" /\ RequestTimeOnly /\ ~Unservable) => outcome = "success"
+  (Done /\ fault[coord] = "up" /\ RequestTimeOnly /\ ~Unservable /\ ~ciStalled) => outcome = "success"
 
 \* errors need a cause
 C05_NoSpuriousError == outcome = "error" => \E n \in Nodes : ~Live(n)
